@@ -197,6 +197,13 @@ fn main() {
                 writeln!(out, "{}", text::render_event(c)).unwrap();
             }
         }
+        // rownames --cases F : names of the compiled rows of NameGen programs, in order (C08)
+        "rownames" => {
+            let cases = read_cases(&arg(&args, "--cases").expect("--cases"));
+            for c in &cases {
+                writeln!(out, "{}", text::rownames_event(c)).unwrap();
+            }
+        }
         // e2e --cases F : RoocSolver::solve_using(auto_solver) on rendered programs (C03)
         "e2e" => {
             let cases = read_cases(&arg(&args, "--cases").expect("--cases"));
